@@ -7,6 +7,7 @@ import itertools
 
 from hypothesis import strategies as st
 
+from .gens import wide_ints
 from .core import Fail, GeneratorBug, isolate_abort
 from .runner import Inconclusive
 from .values import Vec, mcanon, norm, render, render_int
@@ -311,7 +312,7 @@ def worker(ctx):
     for n, (ki, L) in enumerate(jobs):
         if n % ctx.nworkers == ctx.index:
             ctx.check("grid", {"ki": ki, "L": L})
-    ext = st.one_of(st.integers(-40, 40), st.sampled_from(BIG), st.integers(-(2 ** 63), 2 ** 63 - 1), st.integers(-(2 ** 70), 2 ** 70))
+    ext = st.one_of(st.integers(-40, 40), st.sampled_from(BIG), st.integers(-(2 ** 63), 2 ** 63 - 1), st.integers(-(2 ** 70), 2 ** 70), wide_ints(6, 72))
     xs = st.lists(st.integers(0, 255), min_size=0, max_size=30)
     c1 = st.builds(lambda k, e, i: {"kind": k, "xs": e, "i": i}, st.sampled_from(["list", "bytes"]), xs, ext)
     c2 = st.builds(lambda k, e, a, b: {"kind": k, "xs": e, "a": a, "b": b}, st.sampled_from(["list", "bytes"]), xs,
